@@ -71,13 +71,72 @@ def check(cat, after, res):
         res.violation(f"C07|cat|{what}|{rep}|{'integer' if float(p).is_integer() else 'fractional'}-parity", f"{desc} on the bosonic simulator: {msg}", case)
 
 
+# ----------------------------------------------------------------------------- non-Gaussian preparations of the Fock simulator
+GKPS = [(0.0, 0.0), (PI / 2, PI / 2), (0.7, 1.1), (PI, 0.0), (PI / 2, 0.0)]
+FCTX = ["alone", "alone-mixed", "after-Fock(1)", "second-of-two", "then-BS"]
+FCUT = 12
+
+
+def check_fock_gkp(gkp, ctxname, res):
+    """GKP(state=[theta, phi]) - complex amplitudes for generic angles - on the Fock simulator, in every way the simulator may
+    hold the register (state vector, density matrix because of pure=False, density matrix because another mode was prepared
+    first): the returned density matrix is Hermitian, positive, of trace at most one"""
+    theta, phi = gkp
+    case = {"fock_gkp": True, "gkp": [theta, phi], "ctx": ctxname}
+    n = 1 if ctxname.startswith("alone") else 2
+    prog = sf.Program(n)
+    desc = f"GKP(state=[{theta:.4g}, {phi:.4g}], epsilon=0.35) ({ctxname}) on the Fock simulator at cutoff {FCUT}"
+    try:
+        with warnings.catch_warnings():
+            warnings.simplefilter("ignore")
+            with prog.context as q:
+                if ctxname == "after-Fock(1)":
+                    ops.Fock(1) | q[0]
+                    ops.GKP(state=[theta, phi], epsilon=0.35) | q[1]
+                elif ctxname == "second-of-two":
+                    ops.GKP(epsilon=0.35) | q[0]
+                    ops.GKP(state=[theta, phi], epsilon=0.35) | q[1]
+                elif ctxname == "then-BS":
+                    ops.GKP(state=[theta, phi], epsilon=0.35) | q[0]
+                    ops.BSgate(0.5, 0.3) | (q[0], q[1])
+                else:
+                    ops.GKP(state=[theta, phi], epsilon=0.35) | q[0]
+            opts = {"cutoff_dim": FCUT}
+            if ctxname == "alone-mixed":
+                opts["pure"] = False
+            st = sf.Engine("fock", backend_options=opts).run(prog).state
+            rho = np.asarray(st.dm())
+            d = FCUT**n
+            if n == 2:
+                rho = rho.transpose(0, 2, 1, 3).reshape(d, d)
+    except Exception as e:  # noqa: BLE001
+        res.violation(f"C07|fock-gkp|raises|{type(e).__name__}", f"{desc}: {type(e).__name__}: {str(e)[:120]}", case)
+        return
+    herm = float(np.max(np.abs(rho - rho.conj().T)))
+    tr = complex(np.trace(rho))
+    if herm > 1e-9:
+        res.violation(f"C07|fock-gkp|not-hermitian|{ctxname}", f"{desc}: the density matrix is not Hermitian (max |rho - rho^+| = {herm:.3g}, trace {tr:.4g})", case)
+        return
+    ev = np.linalg.eigvalsh((rho + rho.conj().T) / 2)
+    if ev.min() < -1e-9:
+        res.violation(f"C07|fock-gkp|not-positive|{ctxname}", f"{desc}: smallest eigenvalue {ev.min():.3g}", case)
+    if abs(tr.imag) > 1e-9 or tr.real > 1 + 1e-9 or tr.real <= 0:
+        res.violation(f"C07|fock-gkp|trace|{ctxname}", f"{desc}: trace {tr}", case)
+
+
 def tasks(quick):
     items = [(c, af) for c in CATS for af in (AFTER if not quick else AFTER[:2] + AFTER[4:6]) if not quick or c[0] != 1.5]
-    return [("cat", items[i : i + 8]) for i in range(0, len(items), 8)]
+    return [("cat", items[i : i + 8]) for i in range(0, len(items), 8)] + [("fock_gkp", [(g, c) for c in FCTX]) for g in GKPS]
 
 
 def work(task):
     res = Res()
+    if task[0] == "fock_gkp":
+        for g, c in task[1]:
+            res.n += 1
+            res.nt += 1
+            check_fock_gkp(g, c, res)
+        return res
     for cat, af in task[1]:
         res.n += 1
         res.nt += 1
@@ -88,6 +147,9 @@ def work(task):
 
 def replay(case):
     res = Res()
+    if case.get("fock_gkp"):
+        check_fock_gkp(tuple(case["gkp"]), case["ctx"], res)
+        return [(s, w) for s, w, _ in res.viol]
     af = case["after"]
     check(tuple(case["cat"]), None if af is None else (af[0], tuple(af[1])), res)
     return [(s, w) for s, w, _ in res.viol]
